@@ -93,7 +93,7 @@ func TreesOfSize(n int, memo map[int][]ast.Expr) []ast.Expr {
 var (
 	plainNames = []string{"x", "y", "t0", "_a", "Z9", "i_2", "x10", "_", "acc"}
 	// keyword look-alikes that may stand anywhere
-	lookalikes = []string{"return", "add", "shl", "dbl", "returnx", "return_", "return1", "addx", "add1", "shlx", "shl3",
+	lookalikes = []string{"return", "add", "shl", "dbl", "returnx", "return_", "return1", "returnreturn", "return2x", "addx", "add1", "add_", "shlx", "shl3", "shl_",
 		"dbl2", "dbl0", "dbl9x", "db", "dbl8", "xdbl", "_dbl", "d", "a", "s", "r"}
 	// identifiers of the dbl class (finding K1): legal only directly under a shift or double
 	dblClass = []string{"dblx", "dbl_", "dbl1", "dblreturn", "dbl_1", "dblA", "dbl1x"}
@@ -391,13 +391,14 @@ func RenderScript(r *lib.Rand, c *ast.Chain, wild bool) string {
 	return out.String()
 }
 
-// startsWithReturn: the leftmost token of the rendered expression could begin
-// with the letters "return" (then the keyword must be written).
+// startsWithReturn: the leftmost token of the rendered expression is the identifier "return"
+// itself (then the keyword must be written: "return + 1" would read "return" as the keyword).
+// A longer identifier with that prefix (returnx, return1) is fine: the keyword needs a blank.
 func startsWithReturn(e ast.Expr) bool {
 	for {
 		switch x := e.(type) {
 		case ast.Identifier:
-			return strings.HasPrefix(string(x), "return")
+			return string(x) == "return"
 		case ast.Add:
 			e = x.X
 		case ast.Shift:
@@ -435,7 +436,7 @@ func usesDblIdent(c *ast.Chain) bool {
 }
 
 // SmallTokens is the reduced alphabet used for longer exhaustive sequences.
-var SmallTokens = []string{"1", "[1]", "x", "add", "shl", "dbl", "return", "+", "<<", "2*", "(", ")", "=", "3", " ", "\n"}
+var SmallTokens = []string{"1", "[1]", "x", "add", "shl", "dbl", "return", "+", "<<", "2*", "(", ")", "=", "3"}
 
 // SequencesOver calls f on every sequence of exactly n tokens of the alphabet, joined with nothing and with single spaces.
 func SequencesOver(alpha []string, n int, f func(src string)) {
